@@ -100,6 +100,12 @@ Cmd(c) == desc.cmds[c]
 NodeRec(n) == desc.nodes[n]
 PathOf(n) == desc.nodes[n].path
 IsVirtual(n) == desc.nodes[n].kind = "virtual"
+(* a virtual node carrying the time its producer last ran (is-command-timestamp): consumers re-run whenever the     *)
+(* producer ran; a file node modified in place by other commands (is-mutated): only its existence counts for the      *)
+(* validity of its producer's result                                                                                 *)
+IsTimestamp(n) == "ts" \in DOMAIN desc.nodes[n] /\ desc.nodes[n].ts
+IsMutated(n) == "mut" \in DOMAIN desc.nodes[n] /\ desc.nodes[n].mut
+Mutates(c) == IF "mutates" \in DOMAIN desc.cmds[c] THEN desc.cmds[c].mutates ELSE ""
 Producers(n) == {c \in Cmds : \E i \in 1..Len(Cmd(c).outs) : Cmd(c).outs[i] = n}
 ProducerOf(n) == CHOOSE c \in Producers(n) : TRUE
 
@@ -186,9 +192,15 @@ WriteOuts(F, F0, c, j) ==       \* F0: the file system the body read its inputs 
                  ELSE IF Cmd(c).keep /\ F[PathOf(o)].t = "file" /\ F[PathOf(o)].c = BodyText(F0, c, j) THEN F   \* write-if-changed body
                  ELSE WriteFile(F, PathOf(o), BodyText(F0, c, j)), F0, c, j + 1)
 BodyFails(F, c) == Cmd(c).failif # "" /\ Exists(F, PathOf(Cmd(c).failif))
+(* a body that modifies a file created by another command in place: appends "+tag"; fails if the file is not there *)
+MutateOk(F, c) == Mutates(c) = "" \/ F[PathOf(Mutates(c))].t = "file"
+MutateIn(F, c) == IF Mutates(c) # "" /\ MutateOk(F, c)
+                  THEN WriteFile(F, PathOf(Mutates(c)), F[PathOf(Mutates(c))].c \o "+" \o Cmd(c).tag) ELSE F
 RunBody(F, c) ==
   IF BodyFails(F, c) /\ Cmd(c).failpt = "before" THEN [fs |-> F, ok |-> FALSE]
-  ELSE [fs |-> WriteOuts(F, F, c, 1), ok |-> ~BodyFails(F, c)]
+  ELSE LET F1 == WriteOuts(F, F, c, 1) IN
+       IF ~MutateOk(F1, c) THEN [fs |-> F1, ok |-> FALSE]
+       ELSE [fs |-> MutateIn(F1, c), ok |-> ~BodyFails(F, c)]
 
 -----------------------------------------------------------------------------
 (* Per-rule client semantics *)
@@ -218,7 +230,9 @@ CmdValid(c, v, F) ==
          /\ ~d.aood
          /\ v.k = "SuccessfulCommand"
          /\ Len(v.i) = Len(d.outs)
-         /\ \A j \in 1..Len(d.outs) : IsVirtual(d.outs[j]) \/ v.i[j] = Info(F, PathOf(d.outs[j]))
+         /\ \A j \in 1..Len(d.outs) :
+              \/ IsVirtual(d.outs[j])
+              \/ IF IsMutated(d.outs[j]) THEN (v.i[j] = 0) = ~Exists(F, PathOf(d.outs[j])) ELSE v.i[j] = Info(F, PathOf(d.outs[j]))
     [] d.tool = "mkdir" -> v.k = "SuccessfulCommand" /\ F[PathOf(d.outs[1])].t = "dir"
     [] d.tool = "symlink" -> /\ v.k = "SuccessfulCommand" /\ Len(v.i) = 1
                              /\ Exists(F, PathOf(d.outs[1])) /\ v.i[1] = Info(F, PathOf(d.outs[1]))
@@ -246,7 +260,7 @@ ResultForOutput(c, n, v) ==
   ELSE IF v.k \in {"FailedCommand", "PropagatedFailureCommand", "CancelledCommand"} THEN VFailedIn
   ELSE IF v.k = "SkippedCommand" THEN VSkipped
   ELSE IF Cmd(c).tool = "stale" THEN v
-  ELSE IF IsVirtual(n) THEN VVirtual
+  ELSE IF IsVirtual(n) /\ ~IsTimestamp(n) THEN VVirtual
   ELSE LET j == CHOOSE j \in 1..Len(Cmd(c).outs) : Cmd(c).outs[j] = n IN
        IF v.i[j] = 0 THEN VMissingOut ELSE VExisting(v.i[j])
 
@@ -259,10 +273,12 @@ SkipFor(c, v) ==
 -----------------------------------------------------------------------------
 (* The engine, big-step per rule, canonical schedule.                        *)
 (* Build state S: [fs, mem, done, ran, status, reasons, failures, errors,    *)
-(*                 removed]                                                  *)
+(*                 removed, skip, dskipped]                                  *)
 
 NewBuild(F, M, D) == [fs |-> F, mem |-> M, db |-> D, aborted |-> FALSE, done |-> {}, ran |-> <<>>, status |-> <<>>, reasons |-> <<>>,
-                   failures |-> 0, errors |-> 0, removed |-> <<>>, skipped |-> {}]
+                   failures |-> 0, errors |-> 0, removed |-> <<>>, skipped |-> {},
+                   skip |-> {},          \* the commands the client's delegate refuses to start in this build (shouldCommandStart)
+                   dskipped |-> {}]      \* ... and those it was actually asked about and refused
 
 Put(m, k, r) == [x \in DOMAIN m \cup {k} |-> IF x = k THEN r ELSE m[x]]
 SetMem(S, k, r) == [S EXCEPT !.mem = Put(@, k, r)]
@@ -273,6 +289,10 @@ Finish(S, k, v, force, deps) ==
       r2 == [val |-> IF changed THEN v ELSE r.val, sig |-> SigOf(k), built |-> epoch + 1,
              computed |-> IF changed THEN epoch + 1 ELSE r.computed, deps |-> deps]
   IN [SetMem(S, k, r2) EXCEPT !.done = @ \cup {k}, !.db = Put(@, k, r2)]
+
+(* what computeCommandResult records for output n: nothing for a virtual node, the current iteration for a command *)
+(* timestamp (any value that differs from run to run), the file info otherwise                                     *)
+OutInfo(F, n) == IF IsVirtual(n) THEN (IF IsTimestamp(n) THEN 0 - (epoch + 2) ELSE -1) ELSE Info(F, PathOf(n))
 
 RECURSIVE Ensure(_,_), ScanDeps(_,_,_), EnsureAll(_,_), RunRule(_,_,_,_)
 
@@ -354,7 +374,14 @@ RunRule(k, S0, reason, inp) ==
              skips == {SkipFor(c, vals[i]) : i \in 1..Len(vals)}
              ideps == DepsOf(ks)
          IN
-         IF d.tool = "symlink" THEN     \* inputs are must-follow; the link is (re)created whatever is in its place
+         (* CommandTask::inputsAvailable asks the delegate first, whatever the tool and whatever the inputs delivered:   *)
+         (* a refused command finishes as Skipped, stores SkippedCommand (never valid) and is not a failure.  Its         *)
+         (* consumers are NOT skipped (ExternalCommand::provideValue: "a skipped dependency doesn't cause this command  *)
+         (* to skip") - they run on whatever is on disk - and run again once the skipped command has run.              *)
+         IF c \in S1.skip THEN
+           Finish([S1 EXCEPT !.status = Append(@, [c |-> c, s |-> "Skipped"]), !.dskipped = @ \cup {c}], k, VSkipped, FALSE,
+                  IF d.tool = "symlink" THEN [i \in 1..Len(ks) |-> Dep(ks[i], TRUE)] ELSE ideps)
+         ELSE IF d.tool = "symlink" THEN     \* inputs are must-follow; the link is (re)created whatever is in its place
            LET p == PathOf(d.outs[1])
                F1 == MkDirs(S1.fs, S1.fs[p].par)
                F2 == IF Exists(F1, p) THEN RemoveTree(F1, p) ELSE F1
@@ -375,8 +402,7 @@ RunRule(k, S0, reason, inp) ==
                  /\ \A i \in 1..Len(vals) : vals[i].k # "MissingOutput"
                  /\ \A j \in 1..Len(d.outs) : IsVirtual(d.outs[j]) \/ Exists(S1.fs, PathOf(d.outs[j]))
          THEN  \* allow-modified-outputs: just refresh the recorded output infos, run nothing
-           Finish(S1, k, VSuccess([j \in 1..Len(d.outs) |-> IF IsVirtual(d.outs[j]) THEN -1 ELSE Info(S1.fs, PathOf(d.outs[j]))]),
-                  FALSE, ideps)
+           Finish(S1, k, VSuccess([j \in 1..Len(d.outs) |-> OutInfo(S1.fs, d.outs[j])]), FALSE, ideps)
          ELSE
            LET (* directories containing the file outputs are created first *)
                RECURSIVE Parents(_,_)
@@ -394,7 +420,7 @@ RunRule(k, S0, reason, inp) ==
                S2 == [S1 EXCEPT !.fs = run.fs, !.ran = Append(@, c),
                                 !.status = Append(@, [c |-> c, s |-> IF ok THEN "Succeeded" ELSE "Failed"]),
                                 !.failures = IF ok THEN @ ELSE @ + 1]
-               v == IF ok THEN VSuccess([j \in 1..Len(d.outs) |-> IF IsVirtual(d.outs[j]) THEN -1 ELSE Info(run.fs, PathOf(d.outs[j]))])
+               v == IF ok THEN VSuccess([j \in 1..Len(d.outs) |-> OutInfo(run.fs, d.outs[j])])
                     ELSE VFailedCmd
                S3 == Finish(S2, k, v, FALSE, ideps \o DepsOf(disc))
            IN EnsureAll(disc, S3)     \* discovered dependencies are brought up to date after the command
@@ -427,20 +453,22 @@ ReachNodes(ns, n) ==     \* n: fuel
 NoLast == [a |-> "none"]
 
 (* one build of key k0 (a target or a node) by the current frontend *)
-DoBuild(k0) == Ensure(k0, NewBuild(fs, mem, db))
+DoBuildSkip(k0, sk) == Ensure(k0, [NewBuild(fs, mem, db) EXCEPT !.skip = sk])
+DoBuild(k0) == DoBuildSkip(k0, {})
 BuildOk(k0, B) ==
   /\ B.failures = 0 /\ B.errors = 0
   /\ (k0.t = "N" => Get(B.mem, k0).val.k = "ExistingInput")
-Build(k0) ==
-  LET B == DoBuild(k0) IN
+BuildSkip(k0, sk) ==
+  LET B == DoBuildSkip(k0, sk) IN
   /\ fs' = B.fs
   /\ mem' = B.mem
   /\ db' = IF hasdb THEN B.db ELSE <<>>
   /\ epoch' = epoch + 1
   /\ last' = [a |-> "Build", k |-> k0, ok |-> BuildOk(k0, B), ran |-> B.ran,
-              quiet |-> (last.a = "Build" /\ last.ok /\ last.k = k0), status |-> B.status,
-              reasons |-> B.reasons, removed |-> B.removed, skipped |-> B.skipped, fs0 |-> fs, mem0 |-> mem]
+              quiet |-> (last.a = "Build" /\ last.ok /\ last.k = k0 /\ last.dskipped = {}), status |-> B.status,
+              reasons |-> B.reasons, removed |-> B.removed, skipped |-> B.skipped, dskipped |-> B.dskipped, fs0 |-> fs, mem0 |-> mem]
   /\ UNCHANGED <<desc, hasdb>>
+Build(k0) == BuildSkip(k0, {})
 
 (* an observable edit of the file system outside a build: F2 is the new file system; every path whose *)
 (* entry differs got a new stamp                                                                      *)
@@ -472,9 +500,9 @@ StatusOf(c) == LET i == CHOOSE i \in 1..Len(last.status) : last.status[i].c = c 
 ReachableFileOutputs(k0) ==
   LET roots == IF k0.t = "T" THEN SeqToSet(desc.targets[k0.n]) ELSE {k0.n}
       ns == ReachNodes(roots, Cardinality(Cmds) + 1)
-  IN {n \in ns : ShellProducer(n) # "" /\ NodeRec(n).kind = "file"}
-OutputsClean ==
-  (IsBuild /\ last.ok) => \A n \in ReachableFileOutputs(last.k) : FileText(fs, PathOf(n)) = CleanText(n)
+  IN {n \in ns : ShellProducer(n) # "" /\ NodeRec(n).kind = "file" /\ ~IsMutated(n)}     \* (no promise for files modified in place)
+OutputsClean ==       \* (a build in which the delegate refused a command promises nothing; the NEXT build must repair it)
+  (IsBuild /\ last.ok /\ last.dskipped = {}) => \A n \in ReachableFileOutputs(last.k) : FileText(fs, PathOf(n)) = CleanText(n)
 
 (* C09: a build right after a successful build of the same key, nothing changed in between, runs nothing *)
 (* (always-out-of-date commands and stale-file removal excepted)                                          *)
@@ -490,9 +518,21 @@ Upstream(cs, n) == IF n = 0 THEN cs ELSE
 StrictUpstream(c) == Upstream(UNION {Producers(x) : x \in SeqToSet(Cmd(c).ins)}, Cardinality(Cmds))
 NonPhony(cs) == {c \in cs : Cmd(c).tool # "phony"}
 OrderingOnly(c) == Cmd(c).tool \in {"phony", "symlink"}     \* these tools never read their inputs (symlink inputs are must-follow)
+(* ... where "consumes" does not look through a command the client's delegate refused to start in this build: the    *)
+(* refusal is decided BEFORE the failed input is looked at (CommandTask::inputsAvailable), the refused command stores *)
+(* SkippedCommand, and "a skipped dependency doesn't cause this command to skip" - see RefusalHidesNoFailure (S33).  *)
+RECURSIVE UpstreamOpen(_,_,_)
+UpstreamOpen(cs, stop, n) == IF n = 0 THEN cs ELSE
+  UpstreamOpen(cs \cup UNION {Producers(x) : x \in UNION {SeqToSet(Cmd(c).ins) : c \in cs \ stop}}, stop, n - 1)
+OpenUpstream(c) == UpstreamOpen(UNION {Producers(x) : x \in SeqToSet(Cmd(c).ins)}, last.dskipped, Cardinality(Cmds))
 FailureStops ==
   IsBuild => /\ (FailedNow # {} => ~last.ok)
-             /\ \A c \in RanSet : OrderingOnly(c) \/ NonPhony(StrictUpstream(c)) \cap FailedNow = {}
+             /\ \A c \in RanSet : OrderingOnly(c) \/ NonPhony(OpenUpstream(c)) \cap FailedNow = {}
+(* The letter of C10 - no command downstream of a failed one runs, whatever lies between.  The code does NOT have    *)
+(* this property when the delegate refuses a command between the failed command and a consumer (finding S33); the   *)
+(* formula is checked on the pinned scenario only, everything else is held to FailureStops.                         *)
+RefusalHidesNoFailure ==
+  IsBuild => \A c \in RanSet : OrderingOnly(c) \/ NonPhony(StrictUpstream(c)) \cap FailedNow = {}
 (* ... and the recorded result of a failed or skipped command is never valid *)
 FailureRetried ==
   \A c \in Cmds : Get(mem, CK(c)).val.k \in {"FailedCommand", "PropagatedFailureCommand", "CancelledCommand", "SkippedCommand"}
